@@ -90,6 +90,8 @@ def exact_of_token(tok):
 
 def run(ctx):
     rng = ctx.rng
+    from gen.util import json_lexical_corpus
+    ctx.json_lexical(json_lexical_corpus(rng, 120 if ctx.tier != 'thorough' else 1200))
     thorough = ctx.tier == "thorough"
     docs, meta = [], []  # meta: (kind, field, token, expect, how)  expect: ("exact", v) | ("reject",) | ("may", v) | ("k1",)
     values = txgen.BOUNDARY + [rng.getrandbits(rng.choice([8, 30, 53, 60, 64, 65, 128, 200, 256])) for _ in range(6 if not thorough else 40)]
